@@ -37,7 +37,9 @@ DTYPE_MAX = {"int8": 127, "uint8": 255, "int16": 32767, "uint16": 65535,
              "int64": 2 ** 63 - 1, "uint64": 2 ** 64 - 1}
 
 TSP_CLASSES = ("bin", "small", "mixed", "mixed", "const", "edge8", "edge16",
-               "edge32", "big", "limit")
+               "edge32", "big", "limit", "huge")
+#: the limit of tsp.Instance: the sum of the row maxima must not exceed it
+TSP_UPPER_LIMIT = 10 ** 15
 
 
 def dtypes_holding(max_value: int) -> list[str]:
@@ -126,6 +128,14 @@ def tsp_matrix(draw: Any, min_n: int = 2, max_n: int = 12,
     kind = draw(st.sampled_from(kinds))
     cls = draw(st.sampled_from(classes))
     cap = TEN12
+    ecls = cls
+    if cls == "huge":
+        # as large as the constructor admits: sum of row maxima <= 10^15
+        if max_upper is None:
+            cap = (TSP_UPPER_LIMIT - 1) // n
+            ecls = draw(st.sampled_from(["big", "limit", "mixed"]))
+        else:
+            cls = ecls = "mixed"
     if max_upper is not None:
         cap = max(1, (max_upper - 2) // n)
         if cls == "edge32" or (cls in ("edge8", "edge16") and
@@ -143,7 +153,7 @@ def tsp_matrix(draw: Any, min_n: int = 2, max_n: int = 12,
     else:
         edge = v = 0
         vals = draw(_entries(n * (n - 1) // 2 if sym else n * (n - 1), cap,
-                             cls))
+                             ecls if cls == "huge" else cls))
     it = iter(vals)
     for i in range(n):
         for j in range(n):
